@@ -28,6 +28,7 @@ type Oblig struct {
 	Model  string
 	Values map[string]string
 	IsCover bool // must be SAT
+	Exempt  string // non-empty: obligation is generated and solved but not demanded (reason)
 }
 
 type Loc struct {
@@ -46,6 +47,7 @@ const (
 	LField
 	LCell
 	LElem
+	LLocal // non-escaping local variable: its own heap key holding the value directly
 )
 
 type PathStep struct {
@@ -128,6 +130,9 @@ type FnVC struct {
 	rets []retSite
 	exitResults []Term
 	exitState *State
+	litAfter map[ssa.Instruction][]*ssa.Alloc
+	litOrd map[*ssa.Alloc]int
+	LitProp string
 }
 
 type recApp struct {
@@ -253,9 +258,23 @@ func (v *FnVC) havocKey(st *State, key string) {
 
 func (v *FnVC) havocAll(st *State) {
 	v.nextEpoch++
+	old := st.heap
+	oldEpoch := st.epoch
 	st.epoch = v.nextEpoch
 	st.heap = map[string]string{}
+	// non-escaping locals and range iterators are not reachable by callees
+	for k := range v.heapSorts {
+		if strings.HasPrefix(k, "L:") || strings.HasPrefix(k, "IT:") {
+			if t, ok := old[k]; ok {
+				st.heap[k] = t
+			} else {
+				st.heap[k] = v.heapGet(&State{heap: old, epoch: oldEpoch}, k)
+			}
+		}
+	}
+	oldAlloc := st.alloc
 	st.alloc = v.freshConst("alloc", "Int")
+	v.asserts = append(v.asserts, fmt.Sprintf("(>= %s %s)", st.alloc, oldAlloc))
 }
 
 func (v *FnVC) mergeStates(parts []mergePart) *State {
@@ -388,6 +407,9 @@ func (v *FnVC) ptrTerm(l *Loc) string {
 	name := "addr_" + sanitize(l.Key)
 	args := []string{l.Ref}
 	sig := []string{"Int"}
+	if l.Kind == LLocal {
+		args, sig = nil, nil
+	}
 	if l.Kind == LElem {
 		args = append(args, l.Idx)
 		sig = append(sig, "Int")
@@ -403,6 +425,9 @@ func (v *FnVC) ptrTerm(l *Loc) string {
 	}
 	v.S.declFun(name, "("+strings.Join(sig, " ")+") Int")
 	t := "(" + name + " " + strings.Join(args, " ") + ")"
+	if len(args) == 0 {
+		t = name
+	}
 	// interior pointers are non-nil
 	v.asserts = append(v.asserts, fmt.Sprintf("(> %s 0)", t))
 	return t
@@ -410,6 +435,8 @@ func (v *FnVC) ptrTerm(l *Loc) string {
 
 func (v *FnVC) readRoot(st *State, l *Loc) string {
 	switch l.Kind {
+	case LLocal:
+		return v.heapGet(st, l.Key)
 	case LField, LCell:
 		return fmt.Sprintf("(select %s %s)", v.heapGet(st, l.Key), l.Ref)
 	case LElem:
@@ -420,6 +447,8 @@ func (v *FnVC) readRoot(st *State, l *Loc) string {
 
 func (v *FnVC) writeRoot(st *State, l *Loc, val string) {
 	switch l.Kind {
+	case LLocal:
+		v.heapSet(st, l.Key, val)
 	case LField, LCell:
 		v.heapSet(st, l.Key, fmt.Sprintf("(store %s %s %s)", v.heapGet(st, l.Key), l.Ref, val))
 	case LElem:
@@ -441,7 +470,7 @@ func (v *FnVC) project(base string, baseT types.Type, path []PathStep) (string, 
 			t = arr.Elem()
 		} else {
 			st := t.Underlying().(*types.Struct)
-			s = fmt.Sprintf("(%s__%s %s)", v.S.SortOf(t), sanitize(st.Field(p.Field).Name()), s)
+			s = fmt.Sprintf("(%s__%s %s)", v.S.SortOf(t), fieldAcc(st, p.Field), s)
 			t = st.Field(p.Field).Type()
 		}
 	}
@@ -496,7 +525,7 @@ func (v *FnVC) updatePath(base string, baseT types.Type, path []PathStep, val st
 	so := v.S.SortOf(baseT)
 	var parts []string
 	for i := 0; i < st.NumFields(); i++ {
-		sel := fmt.Sprintf("(%s__%s %s)", so, sanitize(st.Field(i).Name()), base)
+		sel := fmt.Sprintf("(%s__%s %s)", so, fieldAcc(st, i), base)
 		if i == p.Field {
 			parts = append(parts, v.updatePath(sel, st.Field(i).Type(), path[1:], val))
 		} else {
@@ -531,7 +560,7 @@ func (v *FnVC) store(st *State, l *Loc, val Term) {
 		so := v.S.SortOf(l.T)
 		for i := 0; i < s.NumFields(); i++ {
 			k := v.fieldKey(l.T, s.Field(i))
-			fv := fmt.Sprintf("(%s__%s %s)", so, sanitize(s.Field(i).Name()), val.S)
+			fv := fmt.Sprintf("(%s__%s %s)", so, fieldAcc(s, i), val.S)
 			v.heapSet(st, k, fmt.Sprintf("(store %s %s %s)", v.heapGet(st, k), l.Ref, fv))
 		}
 		return
@@ -572,7 +601,7 @@ func (v *FnVC) wf(t Term, depth int) string {
 		var parts []string
 		for i := 0; i < u.NumFields(); i++ {
 			f := u.Field(i)
-			ft := Term{S: fmt.Sprintf("(%s__%s %s)", so, sanitize(f.Name()), t.S), Sort: v.S.SortOf(f.Type()), T: f.Type()}
+			ft := Term{S: fmt.Sprintf("(%s__%s %s)", so, fieldAcc(u, i), t.S), Sort: v.S.SortOf(f.Type()), T: f.Type()}
 			w := v.wf(ft, depth-1)
 			if w != "true" {
 				parts = append(parts, w)
@@ -873,6 +902,10 @@ func (v *FnVC) loopModKeys(li *LoopInfo) (keys map[string]bool, all bool) {
 	return keys, false
 }
 
+func (v *FnVC) localKey(a *ssa.Alloc) string {
+	return v.regKey("L:"+a.Name(), v.S.SortOf(deref(a.Type())))
+}
+
 // storeKeys: heap keys a store through addr may change.
 func (v *FnVC) storeKeys(addr ssa.Value) []string {
 	switch a := addr.(type) {
@@ -892,6 +925,9 @@ func (v *FnVC) storeKeys(addr ssa.Value) []string {
 			break
 		}
 		top := chain[len(chain)-1]
+		if a, ok := top.X.(*ssa.Alloc); ok && !a.Heap {
+			return []string{v.localKey(a)}
+		}
 		st := deref(top.X.Type())
 		if s, ok := structOf(st); ok {
 			// if root is an IndexAddr into a slice of structs, it is an elem key
@@ -904,6 +940,9 @@ func (v *FnVC) storeKeys(addr ssa.Value) []string {
 		default:
 			return v.storeKeys(a.X)
 		}
+	}
+	if a, ok := addr.(*ssa.Alloc); ok && !a.Heap {
+		return []string{v.localKey(a)}
 	}
 	// generic pointer
 	el := deref(addr.Type())
@@ -945,6 +984,10 @@ func (v *FnVC) Generate() (err error) {
 		return fmt.Errorf("%s: no body", v.fnName())
 	}
 	v.analyzeLoops()
+	if v.LitProp != "" {
+		v.litOrd = map[*ssa.Alloc]int{}
+		v.findLiterals(v.LitProp)
+	}
 	// pre-register range iterators
 	for _, b := range fn.Blocks {
 		for _, ins := range b.Instrs {
@@ -1073,6 +1116,9 @@ func (v *FnVC) encodeBlock(b *ssa.BasicBlock) {
 	}
 	for ; idx < len(b.Instrs); idx++ {
 		v.encodeInstr(b.Instrs[idx])
+		if v.litAfter != nil {
+			v.afterInstr(b.Instrs[idx])
+		}
 	}
 	v.outSt[b] = v.cur
 }
